@@ -166,6 +166,9 @@ impl ::rand::distributions::Distribution<u64> for Hypergeometric {
         let mut successes = self.successes as f64;
         let mut draws = self.draws;
         let mut x = 0;
+        if draws == 0 {
+            return x;
+        }
         loop {
             let p = successes / population;
             let next: f64 = rng.gen();
